@@ -238,20 +238,23 @@ def prove_direct(src_root, ex: Explorer):
 
 
 def prove_fallback(src_root, ex: Explorer):
+    # every way the direct attempt can fail according to its exit-path contract (C11.direct.exit[*]): the TCP connect fails, the peer has no
+    # usable port / the address lookup fails (PeerConnectionError), or a send fails (GetPeerAddress to the server, PeerInit to the peer)
+    direct_outs = ['ok', 'ConnectionFailedError', 'PeerConnectionError', 'ConnectionWriteError']
     outs = ['ok', 'fail']
 
     def path(ctx: Ctx):
         it = mk(src_root, ctx)
         w = mk_network(it, ctx)
-        d, i = outs[ctx.choose(2, 'direct')], outs[ctx.choose(2, 'indirect')]
+        d, i = direct_outs[ctx.choose(4, 'direct')], outs[ctx.choose(2, 'indirect')]
         c1, c2 = w.data_connection(state='CONNECTED'), w.data_connection(state='CONNECTED')
         calls = []
 
         def c_direct(it2, f, a, k):
             def body(it3):
                 calls.append('direct')
-                if d == 'fail':
-                    raise PyRaise(exc(it3, 'ConnectionFailedError', 'x'))
+                if d != 'ok':
+                    raise PyRaise(exc(it3, d, 'x'))
                 return c1
             return A.SimpleAwaitable(it2.aio, 'direct', body)
 
@@ -269,11 +272,12 @@ def prove_fallback(src_root, ex: Explorer):
             raised = None
         except PyRaise as pr:
             r, raised = None, pr.exc.cls.name
-        tag = f'direct={d},indirect={i}'
+        tag = f'direct={d if d == "ok" else "fail"},indirect={i}' if d in ('ok', 'ConnectionFailedError') else f'direct={d},indirect={i}'
         if d == 'ok':
             ctx.prove(f'C11.fallback.exit[{tag}]', r is c1 and calls == ['direct'])
         elif i == 'ok':
-            ctx.prove(f'C11.fallback.exit[{tag}]', r is c2 and calls == ['direct', 'indirect'])
+            ctx.prove(f'C11.fallback.exit[{tag}]', r is c2 and calls == ['direct', 'indirect'],
+                      f'the direct attempt failed with {d}: the indirect attempt must be made and its connection returned (raised: {raised})')
         else:
             ctx.prove(f'C11.fallback.exit[{tag}]', raised == 'PeerConnectionError' and calls == ['direct', 'indirect'])
     ex.run(path, 'fallback')
